@@ -14,7 +14,12 @@ func (d *Driver) draw(t *wg.Ty, maxLen int) *wg.Val {
 	if d.size >= 0 {
 		return d.sized(t, d.size, true)
 	}
-	return wg.GenVal(d.rng, t, maxLen)
+	v := wg.GenVal(d.rng, t, maxLen)
+	if hasDyn(t) {
+		// dynamic values of every kind the value package offers (dyn.go)
+		v = d.redyn(v, d.dynKind, 0)
+	}
+	return v
 }
 
 func hasContainer(t *wg.Ty) bool {
